@@ -684,6 +684,16 @@ pub fn run(tier: Tier) -> i32 {
             ("stdin_vcf", J::s(String::from_utf8_lossy(&crate::gen::to_vcf(&cs).0))),
         ]));
     }
+    {
+        use crate::refmodel::RefArray;
+        let sp: Vec<(RefArray, usize)> = vec![
+            (RefArray::from_fn(&[5], |f, _| (f * 3 + 1) as f64), 0),
+            (RefArray::from_fn(&[3, 5], |f, _| ((f * 7) % 11) as f64), 0),
+            (RefArray::from_fn(&[3, 3, 3], |f, _| (f % 4) as f64 * 1000.0), 6),
+            (RefArray::from_fn(&[65, 65], |f, _| (f % 17) as f64), 0),
+        ];
+        super::plain_streams_part(&mut rep, "C01", "count spectra of 5 .. 4 225 entries as create writes them (precision 0 and 6)", &sp);
+    }
     rep.assumptions = vec![
         "reference create computed from genotype classes (harness/src/createmodel.rs::ref_create)".into(),
         "call sets beyond 5 samples / 4 populations are outside the bound; the per-record code is uniform in the number of samples".into(),
